@@ -396,13 +396,18 @@ where
 }
 
 fn run_point(ctx: &mut Ctx, wl: &str, case: u64, rng: &mut Rng, kind: Kind, n: usize) {
+    // the Nesterov-Todd scaling of a symmetric cone depends on (s, z) only: neither the strategy argument nor mu (which
+    // nonsymmetric cones use) may change it.  Half of the points are scaled with ScalingStrategy::Dual and an arbitrary mu
+    let strat = if rng.bool(0.5) { ScalingStrategy::Dual } else { ScalingStrategy::PrimalDual };
+    let mu_arg = if rng.bool(0.5) { 1.0 } else { rng.logpos(-6.0, 6.0) };
+    ctx.bump(if strat == ScalingStrategy::Dual { "points_scaled_with_strategy_Dual" } else { "points_scaled_with_strategy_PrimalDual" });
     let pt = sample_point(rng, kind, n);
     let well = pt.ms > 1e-3 && pt.mz > 1e-3;
     ctx.bump(if well { "points_well_conditioned" } else { "points_near_boundary" });
     match kind {
         Kind::NN => {
             let mut c = NonnegativeCone::<f64>::new(n);
-            let ok = c.update_scaling(&pt.s, &pt.z, 1.0, ScalingStrategy::PrimalDual);
+            let ok = c.update_scaling(&pt.s, &pt.z, mu_arg, strat);
             if !ok {
                 ctx.violation("NN:update_scaling_failed", "NN:update_scaling_failed", wl, case, json!({"s": pt.s, "z": pt.z}));
                 return;
@@ -411,7 +416,7 @@ fn run_point(ctx: &mut Ctx, wl: &str, case: u64, rng: &mut Rng, kind: Kind, n: u
         }
         Kind::SOC => {
             let mut c = SecondOrderCone::<f64>::new(n);
-            let ok = c.update_scaling(&pt.s, &pt.z, 1.0, ScalingStrategy::PrimalDual);
+            let ok = c.update_scaling(&pt.s, &pt.z, mu_arg, strat);
             if !ok {
                 // legitimate only if a residual underflowed; with margins >= 1e-8 relative it must succeed
                 ctx.violation("SOC:update_scaling_failed", "SOC:update_scaling_failed", wl, case, json!({"s": pt.s, "z": pt.z}));
@@ -438,7 +443,7 @@ fn run_point(ctx: &mut Ctx, wl: &str, case: u64, rng: &mut Rng, kind: Kind, n: u
             #[cfg(feature = "sdp")]
             {
                 let mut c = PSDTriangleCone::<f64>::new(n);
-                let ok = c.update_scaling(&pt.s, &pt.z, 1.0, ScalingStrategy::PrimalDual);
+                let ok = c.update_scaling(&pt.s, &pt.z, mu_arg, strat);
                 if !ok {
                     if pt.ms > 1e-6 && pt.mz > 1e-6 {
                         ctx.violation("PSD:update_scaling_failed", "PSD:update_scaling_failed", wl, case, json!({"s": pt.s, "z": pt.z}));
